@@ -153,6 +153,7 @@ class Engine:
         self.inline_loops = inline_loops
         self._loops = {}
         self._promoted = {}
+        self._cur_site = None
         self._ended = []
         self.stats = {"paths": 0, "steps": 0, "inlined": set(), "opaque": set(), "max_depth_hit": 0}
 
@@ -414,6 +415,9 @@ class Engine:
                 return ("agg", "tuple", None, None, (("0", val), ("1", ("overflow", base, a, b, rv["ty"]))))
             if op in ("Lt", "Le", "Gt", "Ge", "Eq", "Ne"):
                 return mk_bin(op, a, b)
+            if op in ("Div", "Rem") and rv["ty"] in ("f32", "f64"):
+                st.events.append({"kind": "fdiv", "op": op, "a": a, "b": b, "body": fr.body["id"], "seq": st.seq,
+                                  "site": self._cur_site})
             return self.arith(op, a, b, rv["ty"])
         if k == "unop":
             a = self.operand(st, fr, rv["a"])
@@ -427,6 +431,8 @@ class Engine:
             kind = rv["kind"]
             if kind in ("PointerCoercion", "PtrToPtr", "Subtype"):
                 return a
+            if kind == "IntToInt":
+                return ("cast", kind, a, rv["ty"], rv.get("from_ty"))
             return ("cast", kind, a, rv["ty"])
         if k == "discr":
             v = self.read_place(st, fr, rv["place"])
@@ -515,8 +521,23 @@ class Engine:
                     return 1
         return None
 
+    def variants_of(self, adt_path):
+        a = self.facts.adts.get(adt_path)
+        if not a or a["kind"] != "enum" or "discrs" not in a:
+            return None
+        return tuple((v["name"], str(d)) for v, d in zip(a["variants"], a["discrs"]))
+
     def propagate(self, st, d, v):
-        """a decision on the bool term Eq(discr(x), k) is also a decision on discr(x)"""
+        """a decision on the bool term Eq(discr(x), k) is also a decision on discr(x); likewise a decision on
+        Eq(x, <field-less variant V>) decides discr(x)"""
+        if d[0] == "bin" and d[1] in ("Eq", "Ne") and unit_variant(d[3]) is not None and d[2][0] != "discr":
+            adt, var = unit_variant(d[3])
+            vs = self.variants_of(adt)
+            if vs:
+                k = [int(dv) for (n, dv) in vs if n == var]
+                if k:
+                    self.propagate(st, ("bin", d[1], ("discr", d[2], vs), ("const", "discr", k[0])), v)
+            return
         if d[0] == "bin" and d[1] in ("Eq", "Ne") and d[2][0] == "discr" and is_const(d[3]) \
                 and isinstance(d[3][2], int):
             dis, k = d[2], d[3][2]
@@ -646,6 +667,7 @@ class Engine:
             for si in range(fr.si, len(blk["stmts"])):
                 s = blk["stmts"][si]
                 if s["k"] == "assign":
+                    self._cur_site = (body["id"], fr.bi, si, s.get("span"))
                     v = self.rvalue(st, fr, s["rv"])
                     c, p = self.place_loc(st, fr, s["place"])
                     self.write_loc(st, c, p, v)
